@@ -114,5 +114,22 @@ CLAIMED['C11'] = dict(
     technique="TLA+ cache/edit state machine + sort fixpoint lemma checked by TLC; spec behaviours replayed on real views "
               "over instrumented sources; strategy differential on TLC-generated inputs; trace validation by TLC",
     design="3/C11")
+CLAIMED['C01'] = dict(
+    text="Iterators.tla states the allowed behaviour (every iterator of a view delivers a prefix of the solo pass under any "
+         "interleaving of iter/next/drop). TLC checks it, and checks the implementation-shaped models of every view that "
+         "shares state between iterators against it for all interleavings of 3 iterators: CacheView (live cache list, "
+         "append guard, completeness flag), SortCache (body chosen at iter(), clearcache at first next(), cache assigned "
+         "before the first data row, lazily vs eagerly bound cache references, memory and file path), DictsSpill (one-shot "
+         "source, header sampling, spill file with high-water mark), RandomSrc (shared vs private generator). The models of "
+         "the code as found are sensitivity runs whose TLC counterexample schedules are replayed on the real cache(), sort() "
+         "and randomtable/dummytable. Every 2-iterator schedule and sampled 3-iterator schedules generated by TLC are "
+         "replayed on 20 stateful views (all schedules), 14 extract views and 140 catalogue views, each next() compared "
+         "with the solo pass, survivors drained, then a fresh pass; random longer schedules (<= 4 iterators) are recorded "
+         "and validated by TLC (IteratorsTrace, which drives Iterators' own actions).",
+    note="CPython single thread; tee* excluded as stated; optional-dependency views not installed. dummytable's interleaving "
+         "dependence on the global random generator is a recorded open finding (known_findings.json F6b).",
+    technique="TLA+ iterator-protocol spec + implementation-shaped shared-state models checked by TLC over all interleavings; "
+              "TLC-generated schedules and counterexamples replayed on real views; trace validation by TLC",
+    design="3/C01")
 
 NOT_APPLICABLE = {}
